@@ -1,11 +1,13 @@
 """C08 - slope, aspect, curvature, hillshade are local 3x3 formulas with NaN borders.
 
 M  Stencil.tla: the state is a small raster, the transition changes one cell; TLC visits EVERY raster over
-   {0,1,2,NaN} (3x3) / {0,1,NaN} (3x4, 4x3) and every single-cell change and proves NaN ring, NaN exactly
+   {0,1,NaN} (3x3; thorough also {0,1,2,NaN}), {0,NaN} and {0,1} (3x4, 4x3; thorough also 4x4 over {0,NaN}) and
+   every single-cell change and proves NaN ring, NaN exactly
    from the cells read, locality, offset invariance, flat law, ranges, quarter-turn law (sign derived from
    the model), cell-size axis binding; negative twins must be rejected.  CellSize_MC.tla: the case analysis
    of get_dataarray_resolution.
-R  every 3x3 window (the same space) as a raster of its own and tiled into 6x9 rasters, with the four cell
+R  every 3x3 window of the same space tiled six to a 6x9 raster (quick: all 3^9 over {0,1,NaN}; thorough: all
+   4^9) and windows as 3x3 rasters of their own (quick: seeded sample; thorough: all 3^9), with the four cell
    sizes given through `res` (every accepted / ignored form) and through coordinates, through the real
    functions (NumPy backend); Stencil_Judge.tla decides every cell of every output.
 T  seeded larger rasters (floats, NaNs, dtypes, random sun positions): NaN ring / NaN exactly / ranges;
@@ -197,11 +199,11 @@ def handle(ctx, cases, tag, parallel=8):
     ctx.judge_extra.clear()
 
 
-def observe(ctx, groups):
+def observe(ctx, groups, nproc=16):
     """run all jobs of the groups through ONE pool of worker processes (import + JIT once per process), then let
     TLC judge each homogeneous group"""
     jobs = [j for _, js, _ in groups for j in js]
-    cases = core.run_jobs("stencil_worker", jobs)
+    cases = core.run_jobs("stencil_worker", jobs, nproc=nproc)
     k = 0
     for tag, js, par in groups:
         part = cases[k:k + len(js)]
@@ -244,40 +246,35 @@ def run(ctx):
     rng = random.Random(ctx.seed * 7919 + 8)
     thorough = ctx.tier == "thorough"
 
+    def mc(name, H, W, vals, cx, cy, inv=INV, props=PROPS, mut="none", expect="ok", workers=6):
+        # few TLC workers: the state spaces are small and CPU-seconds, not wall time, are the budget
+        ctx.model_check("Stencil", dict(spec="Spec", invariants=inv, properties=props,
+                                        constants=mc_consts(H, W, vals, cx, cy, mut)), name, expect=expect,
+                        workers=workers)
+
     # ------------------------------------------------------------------ M
-    ctx.model_check("CellSize_MC", dict(constants=dict(MUT="none")), "cellsize_lemmas")
+    ctx.model_check("CellSize_MC", dict(constants=dict(MUT="none")), "cellsize_lemmas", workers=1)
     for mut in ("attr_yx", "coords_yx", "span_n", "ignore_attr"):
-        ctx.model_check("CellSize_MC", dict(constants=dict(MUT=mut)), "neg_cellsize_" + mut, expect="violation")
-    vals3 = "{0, 1, 2, NAN}" if thorough else "{0, 1, NAN}"
-    ctx.model_check("Stencil", dict(spec="Spec", invariants=INV, properties=PROPS,
-                                    constants=mc_consts(3, 3, vals3, [1, 1], [1, 1])), "all_3x3_windows",
-                    coverage=not thorough)
-    # non-square cells (the quarter-turn law is vacuous there, the ramp lemma is not)
-    ctx.model_check("Stencil", dict(spec="Spec", invariants=INV, properties=PROPS,
-                                    constants=mc_consts(3, 3, "{0, 1, NAN}", [1, 2], [2, 1])), "3x3_cell_half_by_2")
+        ctx.model_check("CellSize_MC", dict(constants=dict(MUT=mut)), "neg_cellsize_" + mut, expect="violation",
+                        workers=1)
+    # every 3x3 window over {0,1,NaN}: all lemmas and both action properties
+    mc("all_3x3_windows", 3, 3, "{0, 1, NAN}", [1, 1], [1, 1])
     if thorough:
-        ctx.model_check("Stencil", dict(spec="Spec", invariants=INV, properties=PROPS,
-                                        constants=mc_consts(3, 3, "{0, 2, NAN}", [2, 1], [2, 1])), "3x3_cell_2_by_2")
-        ctx.model_check("Stencil", dict(spec="Spec", invariants=INV, properties=PROPS,
-                                        constants=mc_consts(3, 3, "{0, 1, NAN}", [2, 1], [1, 1])), "3x3_cell_2_by_1")
-        ctx.model_check("Stencil", dict(spec="Spec", invariants=INV, properties=PROPS,
-                                        constants=mc_consts(3, 3, "{0, 1, NAN}", [1, 1], [3, 1])), "3x3_cell_1_by_3")
+        # every 3x3 window over {0,1,2,NaN}: all state lemmas (the action properties are value-blind: done above)
+        mc("all_3x3_windows_4_values", 3, 3, "{0, 1, 2, NAN}", [1, 1], [1, 1], props=[], workers=8)
+    # non-square / non-unit cells (the quarter-turn law is vacuous for cx # cy, the ramp lemma is not)
+    mc("3x3_cell_half_by_2", 3, 3, "{0, 1, NAN}" if thorough else "{0, 1}", [1, 2], [2, 1])
+    if thorough:
+        mc("3x3_cell_2_by_2", 3, 3, "{0, 2}", [2, 1], [2, 1])
+        mc("3x3_cell_2_by_1", 3, 3, "{0, 1}", [2, 1], [1, 1])
+        mc("3x3_cell_1_by_3", 3, 3, "{0, 1}", [1, 1], [3, 1])
     # locality needs rasters with a cell outside the neighbourhood
-    lv = "{0, 1, NAN}" if thorough else "{0, NAN}"
-    ctx.model_check("Stencil", dict(spec="Spec", invariants=INV_LOC, properties=PROPS,
-                                    constants=mc_consts(3, 4, lv, [1, 1], [1, 1])), "locality_3x4")
-    ctx.model_check("Stencil", dict(spec="Spec", invariants=INV_LOC, properties=PROPS,
-                                    constants=mc_consts(4, 3, "{0, NAN}", [1, 1], [3, 1])), "locality_4x3_nan")
+    mc("locality_3x4_nan", 3, 4, "{0, NAN}", [1, 1], [1, 1], inv=INV_LOC)
+    mc("locality_4x3_nan", 4, 3, "{0, NAN}", [1, 1], [3, 1], inv=INV_LOC)
+    mc("locality_3x4_finite", 3, 4, "{0, 1}", [1, 1], [1, 1], inv=INV_LOC)
     if thorough:
-        ctx.model_check("Stencil", dict(spec="Spec", invariants=INV_LOC, properties=PROPS,
-                                        constants=mc_consts(4, 3, "{0, 1}", [1, 1], [3, 1])), "locality_4x3_finite")
-    ctx.model_check("Stencil", dict(spec="Spec", invariants=INV if not thorough else INV_LOC, properties=PROPS,
-                                    constants=mc_consts(3, 4, "{0, 1}", [1, 1], [1, 1])), "locality_3x4_finite")
-    if thorough:
-        ctx.model_check("Stencil", dict(spec="Spec", invariants=INV_LOC, properties=PROPS,
-                                        constants=mc_consts(4, 4, "{0, NAN}", [1, 1], [1, 1])), "locality_4x4_nan")
-        ctx.model_check("Stencil", dict(spec="Spec", invariants=INV_LOC, properties=PROPS,
-                                        constants=mc_consts(3, 5, "{0, 1}", [1, 1], [1, 1])), "locality_3x5_finite")
+        mc("locality_4x3_finite", 4, 3, "{0, 1}", [1, 1], [3, 1], inv=INV_LOC)
+        mc("locality_4x4_nan", 4, 4, "{0, NAN}", [1, 1], [1, 1], inv=INV_LOC, workers=8)
     # negative twins: each broken kernel must violate the lemma that is there to catch it
     twins = [("ring", 3, 3, "{0, 1, NAN}", [1, 1], [1, 1], ["NaNRing"], []),
              ("rowleak", 3, 4, "{0, NAN}", [1, 1], [1, 1], [], ["Locality"]),
@@ -287,54 +284,52 @@ def run(ctx):
              ("mirror", 3, 3, "{0, 1}", [1, 1], [1, 1], ["RotLaw"], []),
              ("axis", 3, 3, "{0, 1}", [2, 1], [1, 1], ["TypeOK"], [])]      # rejected by the RampLaw assumption
     for n, (mut, H, W, vs, cx, cy, inv, props) in enumerate(twins):
-        ctx.model_check("Stencil", dict(spec="Spec", invariants=inv, properties=props,
-                                        constants=mc_consts(H, W, vs, cx, cy, mut)),
-                        "neg_%s_%d" % (mut, n), expect="violation")
+        mc("neg_%s_%d" % (mut, n), H, W, vs, cx, cy, inv=inv, props=props, mut=mut, expect="violation", workers=2)
     ctx.exhaustive = True
 
     # ------------------------------------------------------------------ R: the cell-size case analysis, directly
     groups = [("cellsize_cases", cellsize_jobs(), 1)]        # (tag, jobs, judge JVMs); observed in one worker pool
 
-    # ------------------------------------------------------------------ R: every window as its own 3x3 raster
+    # ------------------------------------------------------------------ R: windows as rasters of their own
+    # quick: a seeded sample (the complete window space goes through the tilings below);
+    # thorough: every {0,1,NaN} window + a sample of the four-valued ones
     jobs = []
     if thorough:
-        for i in range(4 ** 9):
-            jobs.append(f_job(window(i, 4), i))
-        for i in range(3 ** 9):                       # {0,1,NaN} windows under further (cell size, way) combinations
-            for d in (3, 5):
-                jobs.append(f_job(window(i, 3), i, combo=(i + d) % 8))
-    else:
         for i in range(3 ** 9):
             jobs.append(f_job(window(i, 3), i))
-        for i in rng.sample(range(4 ** 9), 4000):
+        for i in rng.sample(range(4 ** 9), 8000):
             jobs.append(f_job(window(i, 4), i))
-    groups.append(("windows_3x3", jobs, 8))
-    if thorough:            # the big batch on its own (memory), everything else shares one pool
-        observe(ctx, groups)
-        groups = []
-
-    # ------------------------------------------------------------------ R: windows tiled into 6x9 rasters
-    jobs = []
-    if thorough:
-        order = list(range(4 ** 9))
-        rng.shuffle(order)
-        order += order[:(-len(order)) % 6]
-        for t in range(len(order) // 6):
-            rows = tile([window(i, 4) for i in order[6 * t:6 * t + 6]], 2, 3)
-            jobs.append(f_job(rows, t, az=[225, 0, 90, 315, 37][t % 5], alt=[25, 45, 0, 90, 63][t % 5]))
     else:
-        for t in range(500):
+        for i in rng.sample(range(3 ** 9), 1500):
+            jobs.append(f_job(window(i, 3), i))
+        for i in rng.sample(range(4 ** 9), 1500):
+            jobs.append(f_job(window(i, 4), i))
+    groups.append(("windows_3x3", jobs, ctx.pick(2, 4)))
+
+    # ------------------------------------------------------------------ R: EVERY window of the model's space,
+    # tiled six to a 6x9 raster (every window is the neighbourhood of some interior cell; the cells across tile
+    # borders add windows outside the space).  quick: all 3^9 windows over {0,1,NaN}; thorough: all 4^9.
+    jobs = []
+    base_n = 4 if thorough else 3
+    order = list(range(base_n ** 9))
+    rng.shuffle(order)
+    order += order[:(-len(order)) % 6]
+    for t in range(len(order) // 6):
+        rows = tile([window(i, base_n) for i in order[6 * t:6 * t + 6]], 2, 3)
+        jobs.append(f_job(rows, t, az=[225, 0, 90, 315, 37][t % 5], alt=[25, 45, 0, 90, 63][t % 5]))
+    if not thorough:
+        for t in range(300):
             rows = tile([window(rng.randrange(4 ** 9), 4) for _ in range(6)], 2, 3)
             jobs.append(f_job(rows, t, az=[225, 0, 90, 315, 37][t % 5], alt=[25, 45, 0, 90, 63][t % 5]))
     # non-square tilings the other way round, and small-integer rasters with negative values
-    for t in range(ctx.pick(150, 1500)):
+    for t in range(ctx.pick(100, 600)):
         rows = tile([window(rng.randrange(4 ** 9), 4) for _ in range(6)], 3, 2)
         jobs.append(f_job(rows, t))
-    for t in range(ctx.pick(200, 3000)):
+    for t in range(ctx.pick(150, 1500)):
         H, W = rng.choice([(4, 7), (5, 5), (7, 4), (3, 8)])
         rows = sprinkle_nan(rng, rand_raster(rng, H, W, "smallint"), rng.choice([0, 0.05, 0.15]))
         jobs.append(f_job(rows, t, az=rng.choice([225, 10, 100, 180, 271, 359]), alt=rng.choice([25, 5, 60, 89])))
-    groups.append(("tiled_rasters", jobs, 8))
+    groups.append(("tiled_rasters", jobs, ctx.pick(4, 8)))
 
     # ------------------------------------------------------------------ T: seeded metamorphic cases on the real code
     def base(kind, mode, nan=True, square=False, dtypes=("float64", "float32")):
@@ -345,35 +340,34 @@ def run(ctx):
         return {"kind": kind, "H": H, "W": W, "vals": rows, "dtype": rng.choice(dtypes),
                 "meta": rand_meta(rng, H, W, square), "az": rng.randint(0, 360), "alt": rng.randint(0, 90)}
 
-    n = ctx.pick(250, 3000)
-    jobs = [base("G", rng.choice(["float", "int"])) for _ in range(n)]
+    jobs = [base("G", rng.choice(["float", "int"])) for _ in range(ctx.pick(200, 1500))]
     for (H, W) in [(2, 4), (4, 2), (2, 2), (3, 3), (2, 7)] * ctx.pick(2, 10):      # rasters that are all border
         j = base("G", "float")
         j["H"], j["W"], j["vals"] = H, W, rand_raster(rng, H, W, "float")
         j["meta"] = rand_meta(rng, H, W)
         jobs.append(j)
-    groups.append(("general_rasters", jobs, 4))
+    groups.append(("general_rasters", jobs, ctx.pick(1, 4)))
 
     jobs = []
-    for _ in range(ctx.pick(400, 5000)):
+    for _ in range(ctx.pick(300, 2500)):
         j = base("P", rng.choice(["float", "int", "rot"]))
         j["p"] = [rng.randrange(j["H"]), rng.randrange(j["W"])]
         old = j["vals"][j["p"][0]][j["p"][1]]
         j["v"] = rng.choice(["nan", round(rng.uniform(-500, 500), 2), 0, 10 ** 6]) if old != "nan" else rng.choice([0, 3.5, -80])
         jobs.append(j)
-    groups.append(("perturbation", jobs, 4))
+    groups.append(("perturbation", jobs, ctx.pick(1, 4)))
 
     jobs = []
-    for _ in range(ctx.pick(300, 4000)):
+    for _ in range(ctx.pick(200, 2000)):
         j = base("K", "int", dtypes=("float64", "float32", "int32", "int64"))
         if j["dtype"].startswith("int"):
             j["vals"] = [[0 if v == "nan" else v for v in row] for row in j["vals"]]
         j["k"] = rng.choice([1, 7, -13, 1000, 65536, -40000])
         jobs.append(j)
-    groups.append(("plus_constant", jobs, 4))
+    groups.append(("plus_constant", jobs, ctx.pick(1, 4)))
 
     jobs = []
-    for _ in range(ctx.pick(300, 4000)):
+    for _ in range(ctx.pick(200, 2000)):
         j = base("R", "rot", square=True, dtypes=("float64", "float32", "int16", "int64"))
         if j["dtype"].startswith("int"):
             j["vals"] = [[0 if v == "nan" else v for v in row] for row in j["vals"]]
@@ -382,23 +376,22 @@ def run(ctx):
             j["meta"]["rk"] = "none"
             j["meta"]["rx"] = j["meta"]["ry"] = [1, 1]
         jobs.append(j)
-    groups.append(("rot90", jobs, 4))
+    groups.append(("rot90", jobs, ctx.pick(1, 4)))
 
-    jobs = [base("S", rng.choice(["float", "int"])) for _ in range(ctx.pick(100, 1000))]
-    groups.append(("summarize_terrain", jobs, 2))
-    observe(ctx, groups)
-
+    jobs = [base("S", rng.choice(["float", "int"])) for _ in range(ctx.pick(60, 500))]
+    groups.append(("summarize_terrain", jobs, 1))
+    observe(ctx, groups, nproc=ctx.pick(8, 16))
 
 META = {
     "technique": "TLA+ transcription of the four 3x3 kernels with exact integer/rational arithmetic; TLC visits every "
                  "small raster and every single-cell change (lemmas as invariants / action properties, negative twins); "
                  "the same window space and seeded metamorphic pairs are run through the real functions and judged by TLC",
-    "level_text": "TLC explores every 3x3 window over {0,1,2,NaN} (and every 3x4 / 4x3 raster over {0,1,NaN}) of "
-                  "Stencil.tla with single-cell-change transitions, proving NaN ring, NaN propagation from exactly the "
+    "level_text": "TLC explores every 3x3 window over {0,1,NaN} (thorough: {0,1,2,NaN}) and every 3x4 / 4x3 raster over "
+                  "{0,NaN} and {0,1} (thorough: also 4x4 over {0,NaN}) of Stencil.tla with single-cell-change transitions, proving NaN ring, NaN propagation from exactly the "
                   "cells read, locality, offset invariance, flat law, ranges and the quarter-turn law (direction derived "
                   "from the model), plus the cell-size case analysis (CellSize_MC.tla); broken twins are rejected. Every "
-                  "window of that space is then run through the real slope/aspect/curvature/hillshade as a 3x3 raster and "
-                  "tiled into larger rasters under four cell sizes given by `res` and by coordinates, and "
+                  "window of that space is then run through the real slope/aspect/curvature/hillshade tiled into 6x9 "
+                  "rasters (and, sampled in quick / all 3^9 in thorough, as a 3x3 raster of its own) under four cell sizes given by `res` and by coordinates, and "
                   "Stencil_Judge.tla decides every output cell against the exact arguments; seeded larger rasters are "
                   "checked for locality (bit-exact), offset invariance, rot90 laws and summarize_terrain. Exhaustive on "
                   "the window space, sampled beyond it.",
